@@ -74,6 +74,7 @@ class Sys(e1.TimedSys):
         self.prot.discovery.watch_service(cfg_.Service(self.sid), self.L["L1"])
         self.step_reboots = []
         self.step_kinds = []
+        self.flags = {}  # (src, multicast) -> reboot flag the source currently sends
 
     def close(self):
         self.seam.__exit__(None, None, None)
@@ -130,6 +131,9 @@ class Sys(e1.TimedSys):
             else:
                 sess = self.wire.get(k, self.cfg.get("session_base", 0)) + 1
             self.wire[k] = sess
+            # a peer whose session counter has wrapped sends with the reboot flag clear until it reboots
+            flag = True if ev == "r" else self.flags.get(k, not self.cfg.get("wrapped", False))
+            self.flags[k] = flag
             m.sent_before.add(k)
             entries = []
             for sname, ttl in MSGS[name]:
@@ -143,7 +147,7 @@ class Sys(e1.TimedSys):
                     m.live[key] = None if ttl == INF else now + ttl
                     regd = {ln for ln, on in m.registered.items() if on and FILTER[ln](sname)}
                     m.arrived.setdefault(key, set()).update(regd)
-            data = refcodec.sd_message(sess, entries, reboot=True, unicast=True)
+            data = refcodec.sd_message(sess, entries, reboot=flag, unicast=True)
             self.prot.datagram_received(data, SRC[src], bool(mc))
         elif act[0] == "watch":
             m.registered["L2"] = True
@@ -266,6 +270,11 @@ def configs(ctx):
     out.append(("S1-X-repeated-entries", dict(sid=sid, advs=base, menu=rep, controls=(), deviations=0, fine=1), CLOSURE))
     out.append(("S1-X-high-session", dict(sid=sid, advs=base, menu=s1x, controls=(), deviations=0, fine=1,
                                           session_base=0xFFF0 - ctx.seed % 0x7000), CLOSURE))
+    # a source that has wrapped its session counter (reboot flag clear) before it reboots; a second service shows
+    # whether later messages are taken for reboots
+    wr = s1x + [("S1", n, "n", mc) for n in ("offY1",)]
+    out.append(("S1-wrapped-peer", dict(sid=sid, advs=base, menu=wr, controls=(), deviations=0, fine=1, wrapped=True,
+                                        session_base=0x0100 + ctx.seed % 0x7000), CLOSURE))
     # full menu: two sources, two services, all listeners
     menu = s1x + [("S1", n, "n", mc) for n in ("offY1", "stopY", "offX2+offY1")] + \
         [("S1", "offX2+offY1", "r", mc)] + [("S2", n, e, mc) for n in ("offX2", "stopX") for e in ("n", "r")]
